@@ -111,7 +111,9 @@ static Level fam_graphs(int nfiles, int maxslots_last) {
 // include chains of depth 1..N: file f_i holds a marker, an include of f_{i+1} and another marker; every file label and line
 // must survive the return from the deepest file (one-parameter family, every rung)
 static Level fam_chain(int maxdepth) {
-  return {"include chains of depth 1.." + std::to_string(maxdepth), [=](const CB &cb) {
+  return {"include chains of depth and width 1.." + std::to_string(maxdepth), [=](const CB &cb) {
+            // width: one file including n files one after another (some of them twice, one missing)
+            for (int n = 1; n <= maxdepth; n++) { Case c; c.main = "m"; std::string m = "s\n"; for (int i = 0; i < n; i++) { m += "include \"w" + std::to_string(i) + "\" k" + std::to_string(i) + "\n"; if (i % 5 != 4) c.files["w" + std::to_string(i)] = "t" + std::to_string(i) + (i % 7 == 3 ? " include \"w0\"" : ""); } m += "include \"w0\"\ne"; c.files["m"] = m; cb(c); }
             for (int d = 1; d <= maxdepth; d++) for (int variant = 0; variant < 3; variant++) {
               Case c; c.main = "f0";
               for (int i = 0; i < d; i++) c.files["f" + std::to_string(i)] = "a" + std::to_string(i) + "\ninclude \"f" + std::to_string(i + 1) + "\"\nb" + std::to_string(i) + (variant == 1 ? " include \"f" + std::to_string(d) + "\" c" + std::to_string(i) : "") + "\n";
